@@ -28,7 +28,7 @@ func init() {
 			r.Cov["traces_validated_against_impl"] = m.Counts["responses"]
 			r.Cov["evaluations"] = m.Counts["responses"]
 			r.Cov["distinct_nontrivial"] = len(m.Outc)
-			r.Cov["rule"] = "a case = request (operation, message ID) x constructor x ordered option subset x setter sequence (<=2) over the value alphabets; executed on a real Request decoded by readRequest and written by the real ResponseWriter.Write; the single frame on the wire is parsed by the strict parser (and by go-ldap) and compared with the reference record of what was set. distinct_nontrivial = distinct (constructor, options, setters) shapes"
+			r.Cov["rule"] = "a case = request (operation, message ID) x constructor x ordered option subset x setter sequence (<=2) over the value alphabets, plus responses that are written, changed through their setters and written again; executed on a real Request decoded by readRequest and written by the real ResponseWriter.Write; the single frame on the wire is parsed by the strict parser (and by go-ldap) and compared with the reference record of what was set. distinct_nontrivial = distinct (constructor, options, setters) shapes"
 			r.Cov["samples"] = m.Samp
 			r.Cov["per_family"] = m.Counts
 			r.Cov["exhaustive"] = !m.CapHit
@@ -119,7 +119,8 @@ func c04exec(c *Ctx, cs *c04case) {
 			ref.unordered = o.Attrs
 		}
 	}
-	out, pk, err := writeResponse(r.Bytes(), cs.ReqNum, func(req *gldap.Request) gldap.Response {
+	nWrites := 1
+	out, pk, err := writeResponseEx(r.Bytes(), cs.ReqNum, func(req *gldap.Request, w *gldap.ResponseWriter) gldap.Response {
 		var resp gldap.Response
 		type setter interface {
 			SetResultCode(int)
@@ -143,6 +144,12 @@ func c04exec(c *Ctx, cs *c04case) {
 		for _, s := range cs.Sets {
 			s := s
 			switch s.Kind {
+			case "write":
+				// the response is written here and again at the end, whatever setters follow
+				if e := w.Write(resp); e != nil {
+					panic("harness: intermediate write failed: " + e.Error())
+				}
+				nWrites++
 			case "set:code":
 				resp.(setter).SetResultCode(s.Int)
 				v := s.Int
@@ -190,10 +197,13 @@ func c04exec(c *Ctx, cs *c04case) {
 		return
 	}
 	frames, left, ferr := codec.Frames(out)
-	if ferr != nil || len(left) != 0 || len(frames) != 1 {
-		fail(cs.Ctor+": client does not receive exactly one well-formed LDAPMessage", fmt.Sprintf("%d frames, %d leftover bytes, err %v", len(frames), len(left), ferr))
+	if ferr != nil || len(left) != 0 || len(frames) != nWrites {
+		fail(cs.Ctor+": client does not receive exactly one well-formed LDAPMessage", fmt.Sprintf("%d frames for %d writes, %d leftover bytes, err %v", len(frames), nWrites, len(left), ferr))
 		return
 	}
+	// a response that was written, changed through its setters and written again: the last frame is the one
+	// that has to carry everything that was set
+	frames = frames[len(frames)-1:]
 	resp, err := codec.ParseResponse(frames[0])
 	if err != nil {
 		fail(cs.Ctor+": response is not a well-formed LDAPMessage", err.Error())
@@ -341,6 +351,29 @@ func c04run(c *Ctx) {
 		c04exec(c, cs)
 		if c.n%10007 == 9 || len(c.Samp) < 2 {
 			c.Sample(cs)
+		}
+	}
+	// 0. written, changed, written again
+	wr := c04step{Kind: "write"}
+	for _, a := range [][]string{{"cn", "x"}, {"member", "alice", "bob"}} {
+		for _, b := range [][]string{{"mail", "m"}, {"member", "eve"}, {"cn", "x"}} {
+			emit(&c04case{ReqOp: "search", MsgID: 5, Ctor: "NewSearchResponseEntry", EntryDN: "cn=e", Sets: []c04step{{Kind: "set:attr", Str: a[0], Strs: a[1:]}, wr, {Kind: "set:attr", Str: b[0], Strs: b[1:]}}})
+			emit(&c04case{ReqOp: "search", MsgID: 5, Ctor: "NewSearchResponseEntry", EntryDN: "cn=e", Sets: []c04step{wr, {Kind: "set:attr", Str: a[0], Strs: a[1:]}, wr, {Kind: "set:attr", Str: b[0], Strs: b[1:]}}})
+		}
+	}
+	for _, ctorOp := range [][2]string{{"NewBindResponse", "bind"}, {"NewSearchDoneResponse", "search"}, {"NewResponse", "delete"}, {"NewModifyResponse", "modify"}, {"NewExtendedResponse", "extended"}} {
+		base := []c04step{{Kind: "opt:code", Int: 0}}
+		for _, second := range []c04step{{Kind: "set:code", Int: 49}, {Kind: "set:diag", Str: "later"}, {Kind: "set:matched", Str: "cn=later"}} {
+			emit(&c04case{ReqOp: ctorOp[1], MsgID: 6, Ctor: ctorOp[0], Opts: base, Sets: []c04step{{Kind: "set:diag", Str: "first"}, wr, second}})
+			emit(&c04case{ReqOp: ctorOp[1], MsgID: 6, Ctor: ctorOp[0], Opts: base, Sets: []c04step{wr, second, wr, {Kind: "set:code", Int: 1}}})
+		}
+		if ctorOp[0] == "NewBindResponse" || ctorOp[0] == "NewSearchDoneResponse" {
+			mkc := func(v string) []codec.Control {
+				return []codec.Control{{Kind: "string", OID: "1.2.3.9", Value: v, Expire: -1, Grace: -1, Err: -1}}
+			}
+			emit(&c04case{ReqOp: ctorOp[1], MsgID: 6, Ctor: ctorOp[0], Opts: base, Sets: []c04step{{Kind: "set:controls", Ctl: mkc("one")}, wr, {Kind: "set:controls", Ctl: mkc("two")}}})
+			emit(&c04case{ReqOp: ctorOp[1], MsgID: 6, Ctor: ctorOp[0], Opts: base, Sets: []c04step{wr, {Kind: "set:controls", Ctl: mkc("one")}}})
+			emit(&c04case{ReqOp: ctorOp[1], MsgID: 6, Ctor: ctorOp[0], Opts: base, Sets: []c04step{{Kind: "set:controls", Ctl: mkc("one")}, wr, {Kind: "set:controls"}}})
 		}
 	}
 	reqOpFor := map[string][]string{
